@@ -103,6 +103,21 @@ pub fn gen_case(ch: &mut Choices) -> Case {
             drain(&mut ops, &mut live, &mut next, k);
             continue;
         }
+        if ch.chance(1, 14) {
+            // directed phrase: the limiter idles for very many refresh periods (around 2^31, 2^32, 2^40 ticks: tick
+            // counters of any width narrower than the clock give way here), then everything available is pulled out at
+            // one instant and counted by the window oracle
+            let ticks = ch.pick(&[(1u64 << 31) - 1, 1 << 31, (1 << 31) + 3, (1 << 32) + 1, 1 << 33, 1 << 40]);
+            ops.push(Op::Advance(r.saturating_mul(ticks).min(1 << 61) + ch.pick(&[0u64, 0, r / 2])));
+            let k = burst + 1 + ch.below(burst + 4);
+            drain(&mut ops, &mut live, &mut next, k);
+            if ch.bool() {
+                ops.push(Op::Advance(r));
+                let k = 1 + ch.below(burst + 3);
+                drain(&mut ops, &mut live, &mut next, k);
+            }
+            continue;
+        }
         ops.push(match ch.below(10) {
             0 | 1 | 2 | 3 => {
                 let p = match ch.below(8) {
